@@ -215,6 +215,42 @@ def run(spec, tier, seed, replay=None):
                                      "what": "model and implementation disagree on %d case(s) of %s" % (len(idx), f),
                                      "first_cases": [m for m in mismatches if m["file"] == f][:3]})
         phase_times["coq-cases:" + tag] = round(time.time() - t_c, 1)
+        # ---- confirmation: a failure observed by a harness is reported only if it can be observed again.
+        # Deterministic failures (the inputs derive from the seed) recur at once; failures that depend on
+        # real time or the scheduler are replayed by the harness' own replay mode (which repeats racy
+        # scenarios); what cannot be observed a second time is recorded as a note, not as a violation.
+        fl = s.get("failures") or []
+        if fl and not tag.startswith("confirm"):
+            t_f = time.time()
+            kept, again = [], None
+            for f in fl:
+                confirmed = False
+                if f.get("kind") == "oracle" and f.get("replay") is not None:
+                    rp = os.path.join(workdir, "confirm_%s.json" % tag)
+                    with open(rp, "w") as fh:
+                        json.dump({"property": pid, "replay": f.get("replay"), "key": f.get("key"), "what": f.get("what"),
+                                   "harness": hname or spec.harness}, fh, default=str)
+                    rrc, rout = vlib.sh([binp, "-out", outdir, "-replay", rp], cwd=outdir, env=vlib.GOENV, timeout=900)
+                    confirmed = rrc != 0      # 1 = reproduced; anything else but 0: cannot tell, keep
+                if not confirmed:
+                    if again is None:
+                        _, _, s2 = vlib.run_harness(binp, args, os.path.join(workdir, "confirm_" + tag), seed,
+                                                    timeout=spec.harness_timeout, env=spec.harness_env)
+                        again = (s2 or {}).get("failures")
+                        if s2 is None:
+                            again = None
+                    if again is None:
+                        confirmed = True      # the second run gave no summary: keep what the first one saw
+                    else:
+                        confirmed = any(g.get("kind") == f.get("kind") and g.get("key") == f.get("key") and
+                                        (g.get("replay") == f.get("replay") or g.get("what") == f.get("what")) for g in again)
+                if confirmed:
+                    kept.append(f)
+                else:
+                    notes.append("transient observation, not reproduced by replay or by a second run with the same seed "
+                                 "(%s stage %s): %s %s" % (hname or spec.harness, tag, f.get("key"), str(f.get("what"))[:200]))
+            s["failures"] = kept
+            phase_times["confirm:" + tag] = round(time.time() - t_f, 1)
         s["harness"] = hname or spec.harness
         for f in (s.get("failures") or []):
             f.setdefault("harness", hname or spec.harness)
